@@ -136,12 +136,55 @@ func c0304SendLits() (lits []string, formats []string, suffixes []string) {
 	if fd == nil {
 		return
 	}
+	// forwarding closures: `mustSend := func(cmd string, args ...interface{}) { if err := c.Send(cmd, args...); … }` —
+	// a call of such a closure IS the c.Send of its first argument
+	alias := map[string]bool{}
+	var aliasBodies []*ast.FuncLit
+	ast.Inspect(fd.Body, func(nd ast.Node) bool {
+		as, ok := nd.(*ast.AssignStmt)
+		if !ok || len(as.Lhs) != 1 || len(as.Rhs) != 1 {
+			return true
+		}
+		id, ok1 := as.Lhs[0].(*ast.Ident)
+		fl, ok2 := as.Rhs[0].(*ast.FuncLit)
+		if !ok1 || !ok2 || fl.Type.Params == nil || len(fl.Type.Params.List) == 0 || len(fl.Type.Params.List[0].Names) == 0 {
+			return true
+		}
+		p0 := fl.Type.Params.List[0].Names[0].Name
+		sends, forwards := 0, 0
+		ast.Inspect(fl.Body, func(x ast.Node) bool {
+			if ce, ok := x.(*ast.CallExpr); ok && c0304IsSel(ce.Fun, "c", "Send") && len(ce.Args) >= 1 {
+				sends++
+				if a, ok := ce.Args[0].(*ast.Ident); ok && a.Name == p0 {
+					forwards++
+				}
+			}
+			return true
+		})
+		if sends == 1 && forwards == 1 {
+			alias[id.Name] = true
+			aliasBodies = append(aliasBodies, fl)
+		}
+		return true
+	})
+	inAlias := func(n ast.Node) bool {
+		for _, fl := range aliasBodies {
+			if n.Pos() >= fl.Pos() && n.End() <= fl.End() {
+				return true
+			}
+		}
+		return false
+	}
 	ast.Inspect(fd.Body, func(nd ast.Node) bool {
 		ce, ok := nd.(*ast.CallExpr)
 		if !ok {
 			return true
 		}
-		if c0304IsSel(ce.Fun, "c", "Send") && len(ce.Args) >= 1 {
+		isSend := c0304IsSel(ce.Fun, "c", "Send") && !inAlias(ce)
+		if id, ok := ce.Fun.(*ast.Ident); ok && alias[id.Name] {
+			isSend = true
+		}
+		if isSend && len(ce.Args) >= 1 {
 			if bl, ok := ce.Args[0].(*ast.BasicLit); ok && bl.Kind == token.STRING {
 				s, _ := evalStr(bl, constEnv{})
 				lits = append(lits, s)
